@@ -104,7 +104,8 @@ class MinGenSet():
         self._solution = None
         self.solver = None
         self.solve_statistics = {}
-        self.solver_options = solver_options
+        # None stands for the default (no option given), as in the k-models
+        self.solver_options = solver_options if solver_options is not None else {}
 
         if self.weight_type not in [int, float]:
             utils.logger.error(f"{__name__}: weight_type must be either `int` or `float`.")
